@@ -14,7 +14,7 @@
 (* operation transition is exported as one JSON case by the                *)
 (* ACTION_CONSTRAINT Emit and replayed against the real library.           *)
 (***************************************************************************)
-EXTENDS AkLayout, Json
+EXTENDS AkBroadcast, Json
 
 CONSTANTS
   LeafSet,      \* set of leaf layouts to start from
@@ -224,7 +224,28 @@ SetFieldOp ==
         \/ \E p \in 0..3 : emit([where |-> p], [k \in 1..Len(recs) |-> ins(recs[k], what[k], p)])
   /\ cur' = Sink /\ aux' = NoLayout /\ phase' = "done"
 
-Operate == SetFieldOp \/ SortOp \/ ConcatOp \/ SameValueOp \/ ReduceOp \/ Validity \/ ToListOp \/ SliceOp \/ NumOp \/ LocalIndexOp \/ FlattenOp \/ PadOp \/ CombOp
+\* C04: ufuncs / operators / broadcast_arrays on one or two arrays and scalars
+UfuncOp ==
+  /\ Building /\ "ufunc" \in OpSet /\ Valid(cur)
+  /\ LET lay(L) == [k |-> "lay", L |-> L]
+         sc(x) == [k |-> "sc", v |-> VInt(x)]
+         emit(F, form, args) ==
+            last' = [act |-> "ufunc", args |-> [f |-> F, form |-> form], from |-> cur, aux |-> aux,
+                     fromty |-> TypeStr(TypeOf(cur)), auxty |-> IF HasAux THEN TypeStr(TypeOf(aux)) ELSE "",
+                     len |-> LLen(cur), exp |-> Ufunc(F, args)]
+     IN IF HasAux
+        THEN /\ Valid(aux)
+             /\ \/ emit("add", "aux_cur", <<lay(aux), lay(cur)>>)
+                \/ emit("add", "cur_aux", <<lay(cur), lay(aux)>>)
+                \/ emit("add", "aux_cur_sc", <<lay(aux), lay(cur), sc(100)>>)
+                \/ emit("tuple", "aux_cur", <<lay(aux), lay(cur)>>)
+        ELSE \/ emit("add", "cur_sc", <<lay(cur), sc(10)>>)
+             \/ emit("add", "sc_cur", <<sc(10), lay(cur)>>)
+             \/ emit("add", "cur_cur", <<lay(cur), lay(cur)>>)
+             \/ emit("neg", "cur", <<lay(cur)>>)
+  /\ cur' = Sink /\ aux' = NoLayout /\ phase' = "done"
+
+Operate == UfuncOp \/ SetFieldOp \/ SortOp \/ ConcatOp \/ SameValueOp \/ ReduceOp \/ Validity \/ ToListOp \/ SliceOp \/ NumOp \/ LocalIndexOp \/ FlattenOp \/ PadOp \/ CombOp
 
 Next == Build \/ Operate
 Spec == Init /\ [][Next]_vars
